@@ -1425,6 +1425,13 @@ class Process(StateMachine, persistence.Savable, metaclass=ProcessStateMachineMe
         finally:
             self._stepping = False
             self._set_interrupt_action(None)
+            # A request that was still pending when the step was abandoned (e.g. because the task stepping the process was
+            # cancelled) has just been called off: forget it, otherwise every later kill() or pause() would be answered
+            # with that dead action and the process could never be killed or paused again
+            if self._killing is not None and self._killing.done():
+                self._killing = None
+            if self._pausing is not None and self._pausing.done():
+                self._pausing = None
 
     async def step_until_terminated(self) -> None:
         """If the process has not terminated,
